@@ -11,7 +11,7 @@ package rdb
 //vf:job C01 quick VF_C01_HeaderVersion
 //vf:job C01 thorough VF_C01_Load sk=0..27 attr=4..5 big=1
 //vf:assume C01 the reference writer in the harness follows rdb.c; the DUMP checksum on the oracle side is computed with the tool's own digest over the same byte terms (that this digest is the Redis CRC-64 is C11)
-//vf:outside C01 LZF payloads other than the three hand-built compressed forms; module values (types 6/7); strings longer than 3 bytes; more than 3 elements per collection; more than 3 keys; the 16 MiB chunked hash (not encoded: 16 M interpreted CRC steps)
+//vf:outside C01 LZF payloads other than the three hand-built compressed forms; module values (types 6/7); strings longer than 3 bytes; more than 3 elements per collection; more than 3 keys; chunked hashes other than 2..4 members of 16 MiB or 3 bytes
 
 import (
 	"bytes"
